@@ -211,6 +211,21 @@ SPECULATIVE = [x for x in STATEFUL if x[1] in (
     "SELECT * FROM t PIVOT(SUM(v) FOR k IN ('a', 'b'))", "CREATE TABLE a CLONE b", "SELECT (d2 - d1) DAY TO SECOND FROM t")]
 SIGNATURES = [x for x in STATEFUL if x[1].startswith(("CREATE TEMP FUNCTION", "CREATE FUNCTION", "CREATE MACRO"))]
 
+# the same JSON path TEXT under dialects whose path syntaxes read it differently (dashes, leading digits, quoting)
+JSON_PATH_TEXTS = [
+    ("hive", "SELECT GET_JSON_OBJECT(payload, '$.a-b') FROM events"),
+    ("duckdb", "SELECT x -> '$.a-b' FROM t"),
+    ("mysql", "SELECT x -> '$.a-b' FROM t"),
+    ("presto", "SELECT JSON_EXTRACT(x, '$.a-b') FROM t"),
+    (None, "SELECT JSON_EXTRACT(x, '$.a-b') FROM t"),
+    ("bigquery", "SELECT JSON_VALUE(j, '$.1a') FROM t"),
+    (None, "SELECT JSON_EXTRACT(x, '$.1a') FROM t"),
+    ("databricks", "SELECT GET_JSON_OBJECT(c, '$.`k 1`.b') FROM t"),
+    ("spark", "SELECT GET_JSON_OBJECT(c, '$.a-b.c') FROM t"),
+    ("snowflake", "SELECT GET_PATH(v, 'a-b') FROM t"),
+]
+
+
 def stateful_families():
     """Statements grouped by the piece of per-instance state they touch; a focus group takes whole families so that the
     same state is exercised at least twice on one reused component."""
@@ -219,7 +234,7 @@ def stateful_families():
         + [x for x in FAILING if "|>" in x[1]],
         "anon_alias": [x for x in STATEFUL if "UNNEST" in x[1] or "VALUES (1, 2)" in x[1] or "CROSS JOIN (SELECT 2)" in x[1] or "GENERATE_SERIES(1, 3)" == x[1][-21:] or "FLATTEN" in x[1]],
         "lambda": [x for x in STATEFUL if "->" in x[1]],
-        "jsonpath": [x for x in STATEFUL if "JSON_EXTRACT" in x[1]] + [("bigquery", "SELECT JSON_VALUE(j, '$.a'), JSON_QUERY(j, '$.b.c') FROM t")],
+        "jsonpath": [x for x in STATEFUL if "JSON_EXTRACT" in x[1]] + [("bigquery", "SELECT JSON_VALUE(j, '$.a'), JSON_QUERY(j, '$.b.c') FROM t")] + JSON_PATH_TEXTS,
         "speculative": list(SPECULATIVE),
         "signature": list(SIGNATURES),
         "softkw": [(None, q) for q in SOFT_KEYWORDS],
